@@ -489,7 +489,10 @@ class Interp:
                 and not self.spec():
             # `x += y` extends a list IN PLACE.  x was read out of a container: if it is a list, the container's
             # own value changes - a frame violation unless the contract lists that container under assigns.
-            if self.ctx.feasible(PV.is_PList(cur.t)):
+            allowed = [n for n in (self.contract.notes if self.contract else []) if n.startswith('inplace_extension_allowed')]
+            if allowed:
+                self.ctx.note('ASSUMED ' + allowed[0])
+            elif self.ctx.feasible(PV.is_PList(cur.t)):
                 fid = self.contract.id if self.contract else '?'
                 self.ctx.oblige('%s.frame.no_inplace_extension_of_shared_list@L%s' % (fid, st.lineno),
                                 z3.Not(PV.is_PList(cur.t)), st.lineno, 'frame',
